@@ -3,15 +3,15 @@
 CONSTANTS
   W = 4
   Base = 2
-  MaxBlocks = 6
-  MaxGraceful = 1
+  MaxBlocks = 7
+  MaxGraceful = 2
   BlockMenu <- BlocksMin
   FilterMenu <- FiltersMin
-  Chunks = {2}
-  Limits = {0}
+  Chunks = {1, 100}
+  Limits = {0, 1}
   RangeSlack <- FullRangeOnly
   InvalidateCacheOnReorg = TRUE
-  SnapshotValidated = TRUE
+  SnapshotConsumedOnLoad = TRUE
   DropReopenedWindow = TRUE
 INIT Init
 NEXT Next
